@@ -397,6 +397,8 @@ Verdict run_sched_case(const Case &c, SchedProp which)
     v.classes.push_back("buffer_refilled");
   if (nch > 256)
     v.classes.push_back("more_than_256_chunk_loads");
+  if (nch > 65536)
+    v.classes.push_back("more_than_65536_chunk_loads");
   if ((uint64_t)e.T > nch)
     v.classes.push_back("T>chunks");
   if (e.P.empty())
@@ -838,6 +840,24 @@ void fixed_sched(Ctx &ctx, SchedProp which, const char *pid)
     ctx.stats.samples.push_back(c.text() + "systematic=all schedules with <= " + std::to_string(b) + " preemptions\nexecutions=" + std::to_string(n) + "\ncomplete=" + (complete ? "1" : "0") + "\n");
     if (ctx.stats.violations || ctx.over_budget())
       break;
+  }
+  // one very long run under the canonical schedule: 65 540 chunk loads of 16 bytes through 3 (C03: 5) buffers, so
+  // that a cursor / sequence number / counter of 16 bits wraps as well (the generated long runs stop at 340 loads)
+  if (!ctx.stats.violations && !ctx.over_budget() && which != SP_C04 && mine(ctx, i++))
+  {
+    Case c;
+    c.set("op", which == SP_C14 ? "enc" : "rec");
+    c.seti("plen", 16 * 65540 + 7);
+    c.set("pseed", "99");
+    c.seti("pstyle", 0);
+    c.setb("key", expand(9, 16, 0));
+    c.setb("seed", bytes{'s'});
+    c.seti("cmode", 2);
+    c.seti("hmode", 1);
+    c.seti("T", which == SP_C14 ? 3 : 5);
+    c.seti("chunk", 16);
+    c.set("sched", "k0");
+    eval_fixed(*p, ctx, c);
   }
   ctx.stats.info["n:systematic_executions"] = std::to_string(total);
   ctx.stats.info["n:systematic_configs_completed"] = std::to_string(completed);
